@@ -385,6 +385,12 @@ def r7_fixed_time_budget(ck, cx):
         for loop in [x for x in ast.walk(f.node) if isinstance(x, ast.While)]:
             inside = {id(x) for x in ast.walk(loop)}
             refs = {x.id for x in ast.walk(loop.test) if isinstance(x, ast.Name)}
+            # a loop test written as a call of a local function reads that function's free variables
+            for ld in ast.walk(f.node):
+                if isinstance(ld, (ast.FunctionDef, ast.Lambda)) and ld is not f.node and (
+                        (isinstance(ld, ast.FunctionDef) and ld.name in refs) or
+                        any(isinstance(a2, ast.Assign) and a2.value is ld and any(isinstance(t2, ast.Name) and t2.id in refs for t2 in a2.targets) for a2 in ast.walk(f.node))):
+                    refs |= {x.id for x in ast.walk(ld) if isinstance(x, ast.Name)}
             for a in ast.walk(f.node):
                 if isinstance(a, ast.Assign) and id(a) not in inside and a.lineno < loop.lineno and 'timeout' in U(a.value) and not isinstance(a.value, (ast.Call, ast.Lambda)):
                     refs |= {t.id for t in a.targets if isinstance(t, ast.Name)}
@@ -442,9 +448,42 @@ def r8_send_wait_loop_progress(ck, cx):
     ck.floor('R8', n, 3, 'iterations of the state-wait loop')
 
 
+def r10_faults_propagate_from_transport_methods(ck, cx):
+    """_transact owns close-and-report: it closes the client and returns an error result when _send / _recv RAISE.  A transport
+    method that swallows the fault, closes the socket itself and returns normally lets _transact go on to _recv, which then raises a
+    ConnectionException nothing on the way up catches."""
+    ck.rule('R10', 'the clients\' _send / _recv never close the socket on a path that returns normally: a transport fault reaches _transact as an exception')
+    n = 0
+
+    def mr(node, frame, path):
+        if isinstance(node, ast.Call) and isinstance(node.func, ast.Attribute) and node.func.attr in ('send', 'sendto', 'recv', 'recvfrom', 'read', 'write') \
+                and 'socket' in U(node.func.value):
+            return ['socket.error']
+        return []
+    for cqn in ('pymodbus.client.sync.ModbusTcpClient', 'pymodbus.client.sync.ModbusTlsClient', 'pymodbus.client.sync.ModbusUdpClient',
+                'pymodbus.client.sync.ModbusSerialClient'):
+        c = cx.idx.cls(cqn)
+        for name in ('_send', '_recv'):
+            f = cx.idx.find_method(c, name)
+            if f is None:
+                continue
+            ck.saw('functions', f.qn)
+            for p in cx.enum(f, c, max_depth=0, may_raise=mr):
+                if p.exit and p.exit[0] == 'exc':
+                    continue
+                n += 1
+                closes = [e for e in p.ev if (e.kind == 'call' and U(e.node.func) == 'self.close') or
+                          (e.kind == 'assign' and U(e.a) == 'self.socket' and isinstance(e.node.value, ast.Constant) and e.node.value.value is None)]
+                ck.ob('R10', f.qn, 'no close() on a normally returning path', not closes, detail='closes-and-returns', loc=cx.floc(f, closes[0].node) if closes else cx.floc(f),
+                      message='%s can close the socket and still return normally: the transaction goes on to read from a closed client and '
+                              'ConnectionException escapes the client call instead of an error result' % f.qn)
+    ck.floor('R10', n, 8, 'normally returning paths of the transport methods')
+
+
 def run(ck, tier):
     cx = Ctx()
     ck.guard(r8_send_wait_loop_progress, ck, cx)
+    ck.guard(r10_faults_propagate_from_transport_methods, ck, cx)
     from .c08 import r9_receive_accumulator_is_local
     ck.guard(r9_receive_accumulator_is_local, ck, cx, 'R9')
     ck.guard(r7_fixed_time_budget, ck, cx)
